@@ -366,7 +366,10 @@ func (e *engine) CompileModule(_ context.Context, module *wasm.Module, listeners
 	}
 
 	funcs := make([]compiledFunction, len(module.FunctionSection))
-	irCompiler, err := newCompiler(e.enabledFeatures, callFrameStackSize, module, ensureTermination)
+	// The module was validated with the features of the runtime that compiles it. This engine can be shared, through a
+	// CompilationCache, by runtimes with different features, so e.enabledFeatures (those of the first one) must not
+	// reject what that validation accepted: block types are decoded like in the compiler engine.
+	irCompiler, err := newCompiler(e.enabledFeatures|api.CoreFeaturesV2, callFrameStackSize, module, ensureTermination)
 	if err != nil {
 		return err
 	}
